@@ -691,6 +691,112 @@ static void do_gen(int thorough, int shard, int nshards)
 }
 
 /* ------------------------------------------------------------------------------------------------- */
+/* the same variants called from several threads at once, each on buffers of its own (C02: the parity a call writes is a
+ * function of the data of THAT call only, nothing is read or kept anywhere else) */
+
+#include <pthread.h>
+
+#define MT_THREADS 4
+#define MT_ND 5
+#define MT_SIZE 8192
+#define MT_ROUNDS 120
+
+struct mtjob {
+	const struct genvar *gv;
+	uint64_t seed;
+	long bad_round;   /* first round whose parity differs, -1 if none */
+	int bad_parity;
+	pthread_barrier_t *bar;
+};
+
+static void *mt_worker(void *arg)
+{
+	struct mtjob *j = arg;
+	uint8_t *blk[MT_ND + NP_MAX];
+	uint8_t *exp[NP_MAX];
+	void *v[MT_ND + NP_MAX];
+	uint64_t x = j->seed;
+	int d, p, r;
+	size_t i;
+
+	for (d = 0; d < MT_ND + NP_MAX; ++d) {
+		if (posix_memalign((void **)&blk[d], 256, MT_SIZE) != 0)
+			return 0;
+		v[d] = blk[d];
+	}
+	for (p = 0; p < NP_MAX; ++p)
+		exp[p] = malloc(MT_SIZE);
+	for (d = 0; d < MT_ND; ++d)
+		for (i = 0; i < MT_SIZE; ++i) {
+			x ^= x << 13; x ^= x >> 7; x ^= x << 17;
+			blk[d][i] = (uint8_t)(x >> 24);
+		}
+	for (p = 0; p < j->gv->np; ++p) {
+		memset(exp[p], 0, MT_SIZE);
+		for (d = 0; d < MT_ND; ++d) {
+			const uint8_t *row = W.mul[Aw(j->gv->mode, p, d)];
+
+			for (i = 0; i < MT_SIZE; ++i)
+				exp[p][i] ^= row[blk[d][i]];
+		}
+	}
+	pthread_barrier_wait(j->bar);
+	for (r = 0; r < MT_ROUNDS && j->bad_round < 0; ++r) {
+		for (p = 0; p < j->gv->np; ++p)
+			memset(blk[MT_ND + p], 0xA5, MT_SIZE);
+		j->gv->f(MT_ND, MT_SIZE, v);
+		for (p = 0; p < j->gv->np; ++p)
+			if (memcmp(blk[MT_ND + p], exp[p], MT_SIZE) != 0) {
+				j->bad_round = r;
+				j->bad_parity = p;
+				break;
+			}
+	}
+	for (d = 0; d < MT_ND + NP_MAX; ++d)
+		free(blk[d]);
+	for (p = 0; p < NP_MAX; ++p)
+		free(exp[p]);
+	return 0;
+}
+
+static void do_genmt(uint64_t seed)
+{
+	int vi, t;
+	long runs = 0;
+
+	for (vi = 0; vi < NGENVAR; ++vi) {
+		struct mtjob jobs[MT_THREADS];
+		pthread_t th[MT_THREADS];
+		pthread_barrier_t bar;
+
+		if (!cpu_ok(genvars[vi].need))
+			continue;
+		raid_mode(genvars[vi].mode ? RAID_MODE_VANDERMONDE : RAID_MODE_CAUCHY);
+		snprintf(ctx, sizeof(ctx), "raid_%s called from %d threads at once (nd=%d,size=%d)", genvars[vi].name, MT_THREADS, MT_ND, MT_SIZE);
+		pthread_barrier_init(&bar, 0, MT_THREADS);
+		for (t = 0; t < MT_THREADS; ++t) {
+			jobs[t].gv = &genvars[vi];
+			jobs[t].seed = mix64(seed + (uint64_t)vi * 131 + (uint64_t)t) | 1;
+			jobs[t].bad_round = -1;
+			jobs[t].bad_parity = -1;
+			jobs[t].bar = &bar;
+			if (pthread_create(&th[t], 0, mt_worker, &jobs[t]) != 0)
+				die("pthread_create");
+		}
+		for (t = 0; t < MT_THREADS; ++t)
+			pthread_join(th[t], 0);
+		pthread_barrier_destroy(&bar);
+		for (t = 0; t < MT_THREADS; ++t) {
+			runs += MT_ROUNDS;
+			if (jobs[t].bad_round >= 0)
+				fail("gen-concurrent", "%s: thread %d, call %ld: parity %d differs from the definition for the data of this call",
+					ctx, t, jobs[t].bad_round, jobs[t].bad_parity);
+		}
+	}
+	printf("STAT genmt_calls %ld\n", runs);
+}
+
+/* ------------------------------------------------------------------------------------------------- */
 /* recovery (C03) */
 
 typedef void rec_f(int nr, int *id, int *ip, int nd, size_t size, void **vv);
@@ -1595,6 +1701,8 @@ int main(int argc, char **argv)
 	} else if (strcmp(argv[1], "gen") == 0 && argc == 7) {
 		rng_s = mix64((uint64_t)atoll(argv[4]) * 1000003ULL + (uint64_t)atoi(argv[5]));
 		do_gen(strcmp(argv[3], "thorough") == 0, atoi(argv[5]), atoi(argv[6]));
+	} else if (strcmp(argv[1], "genmt") == 0 && argc == 4) {
+		do_genmt((uint64_t)atoll(argv[3]));
 	} else if (strcmp(argv[1], "rec") == 0 && argc >= 8) {
 		rng_s = mix64((uint64_t)atoll(argv[5]) * 1000033ULL + (uint64_t)atoi(argv[6]));
 		if (argc > 8)
